@@ -12,8 +12,8 @@ EXTENDS Exact
 (* ---- segments ---------------------------------------------------------- *)
 OnSegment(p, a, b) ==      \* p on the closed segment ab
     /\ Orient2(a, b, p) = 0
-    /\ Min(a[1], b[1]) <= p[1] /\ p[1] <= Max(a[1], b[1])
-    /\ Min(a[2], b[2]) <= p[2] /\ p[2] <= Max(a[2], b[2])
+    /\ Mn(a[1], b[1]) <= p[1] /\ p[1] <= Mx(a[1], b[1])
+    /\ Mn(a[2], b[2]) <= p[2] /\ p[2] <= Mx(a[2], b[2])
 
 SegmentsMeet(a, b, c, d) ==   \* closed segments ab and cd share at least one point
     LET o1 == Sgn(Orient2(a, b, c))
